@@ -255,5 +255,27 @@ check("C14",
       technique="complete enumeration of a finite accessor x partial-state space on the implementation under ASan/UBSan",
       engine="zoo", design="3/C14", deadline={"quick": 200, "thorough": 1500})
 
+check("C19",
+      passes=[dict(name="C19", src=["harness/C19.cpp"] + ENV, variant="fast", shards={"quick": 16, "thorough": 16}),
+              dict(name="C19asan", src=["harness/C19.cpp"] + ENV, variant="asan", shards={"quick": 16, "thorough": 16},
+                   args={"quick": ["--asan"], "thorough": ["--asan"]})],
+      rule="EVERY ordered history of <= 3 (quick) / <= 4 (thorough) operations over a 26-operation alphabet with at least one "
+           "operation per table / farm / list family (string pool incl. pool roll-over and oversize words, identifiers, other names, "
+           "pointer/reference/array, qualified, product/sum, function/forall/ptr-to-member/tor, as-type/decltype/auto, transfers, "
+           "literals/template-ids, symbols, expression farms, declaration + redeclaration, function + templates, class, enum with 70 "
+           "enumerators, namespaces, blocks with handlers and every statement kind, lambda/closure/requires/where, directives, "
+           "declarator forms, sub-regions, module units, substitutions, printing) on a fresh Lexicon + units, destroyed in language "
+           "order; oracle = exact accounting by the replaced operator new/delete: live blocks AND bytes after destruction equal the "
+           "counts before construction and no delete of a non-live pointer (an imbalance must reproduce on replay); plus 26 chains of "
+           "50 Lexicons with overlapping lifetimes; the same histories to depth 2 (3) under ASan+UBSan for stale accesses. "
+           "distinct_nontrivial = ordered histories of >= 2 operations.",
+      text="Every operation history up to the bound is executed on the real Lexicon and destroyed; allocation balance is "
+           "decided by exact accounting, stale access by sanitizers on every explored execution.",
+      note="One-time allocations of the C++ runtime are discounted by a warm-up execution and by requiring an imbalance to "
+           "reproduce on replay. LeakSanitizer is not the oracle.",
+      technique="exhaustive enumeration of operation histories up to a depth bound on the implementation, exact allocation "
+                "accounting as the oracle in every final state",
+      engine="explore", design="3/C19", deadline={"quick": 150, "thorough": 1500})
+
 # Properties not claimed (with the reason that goes to MANIFEST.not_applicable).
 NOT_CLAIMED = {}
